@@ -21,21 +21,25 @@ theorem C14_sendStored_within_limit (c : C) (st : List (Nat × Pkt)) :
     unfold sendStoredLoop
     by_cases hsz : p.sz c.cfg.pw > c.s.mpsSend
     · simp only [hsz, if_true]
-      have hr : (releaseIfUsed c id).s.mpsSend = c.s.mpsSend ∧ (releaseIfUsed c id).cfg = c.cfg ∧
-          ∃ t, (releaseIfUsed c id).ev = c.ev ++ t ∧ ∀ e ∈ t, e = .released id := by
+      generalize hc0 : ({ c with s := { c.s with puback := del id c.s.puback, pubrec := del id c.s.pubrec, pubcomp := del id c.s.pubcomp } } : C) = c0
+      have e1 : c0.s.mpsSend = c.s.mpsSend := by rw [← hc0]
+      have e2 : c0.cfg = c.cfg := by rw [← hc0]
+      have e3 : c0.ev = c.ev := by rw [← hc0]
+      have hr : (releaseIfUsed c0 id).s.mpsSend = c0.s.mpsSend ∧ (releaseIfUsed c0 id).cfg = c0.cfg ∧
+          ∃ t, (releaseIfUsed c0 id).ev = c0.ev ++ t ∧ ∀ e ∈ t, e = .released id := by
         unfold releaseIfUsed releaseId
-        by_cases hu : isUsed c.s id = true
+        by_cases hu : isUsed c0.s id = true
         · simp only [hu, if_true]
           split <;> simp [C.setPanic]
         · simp [hu]
       obtain ⟨h1, h2, t1, ht1, hall⟩ := hr
-      obtain ⟨i1, i2, t2, ht2, hs2, hk2⟩ := ih (releaseIfUsed c id)
-      refine ⟨by rw [i1, h1], by rw [i2, h2], t1 ++ t2, by rw [ht2, ht1, List.append_assoc], ?_, ?_⟩
+      obtain ⟨i1, i2, t2, ht2, hs2, hk2⟩ := ih (releaseIfUsed c0 id)
+      refine ⟨by rw [i1, h1, e1], by rw [i2, h2, e2], t1 ++ t2, by rw [ht2, ht1, e3, List.append_assoc], ?_, ?_⟩
       · intro e he p' rel hep
         rcases List.mem_append.1 he with h | h
         · have := hall e h; rw [this] at hep; cases hep
-        · have := hs2 e h p' rel hep; rw [h1, h2] at this; exact this
-      · intro ip hip; have := hk2 ip hip; rw [h1, h2] at this; exact this
+        · have := hs2 e h p' rel hep; rw [h1, h2, e1, e2] at this; exact this
+      · intro ip hip; have := hk2 ip hip; rw [h1, h2, e1, e2] at this; exact this
     · simp only [hsz, if_false]
       -- the counting step changes only `sendCount` / `panic`
       generalize hc1 : (if c.s.sendMax.isSome = true then
